@@ -18,6 +18,8 @@ import ZapVerif.Model.TransConsoleX
 import ZapVerif.Model.TransSlogX
 import ZapVerif.Model.TransOpenX
 import ZapVerif.Model.TransLevelX
+import ZapVerif.Model.TransMessageX
+import ZapVerif.Model.TransDeriveX
 import ZapVerif.Model.Entry
 import ZapVerif.Gen.TransProbe
 /-! `zvdrv CTR`: the interpreter side of the translator's differential test.  An op names a generated table and a
@@ -272,7 +274,19 @@ def levelPar : ZapVerif.TransLevel.Par :=
     formValue := fun _ _ => [], headerGet := fun _ _ => [], jsonDecode := fun _ => ([], []), errText := fun _ => [],
     encodeErr := fun _ _ => [] }
 
+/-- the parameters of the message context (harness/cmd/zvh/trans_message.go): what `fmt` makes of THE argument list is
+    handed over in pseudo-fields; `.(string)` answers the encoding `[2, s]`; the core enables the levels in `#en`; `Check`
+    answers the entry `[1]` iff the level is enabled; the context is sweetened by the sweep proved about `sweetenFields` -/
+def messagePar (e : Env) : ZapVerif.TransMessage.Par :=
+  let b : String → Bytes := fun k => match e.get k with | some (.bytes x) => x | _ => []
+  { sprint := fun _ => b "#sprint", sprintf := fun _ _ => b "#sprintf", sprintln := fun _ => b "#sprintln",
+    asStr := fun v => match v with | .list [.int 2, .bytes s] => some s | _ => none,
+    cen := enabledOf e,
+    check := fun _ l _ => if enabledOf e l then [.int 1] else [],
+    sweeten := fun c => (ZapVerif.TransSweeten.sweepV sweetenPar 0 false c).fields }
+
 def tables : List (String × (Env → Ctx)) := [
+  ("TransMessage", fun e => ZapVerif.TransMessage.X (messagePar e)),
   ("TransLevel", fun _ => ZapVerif.TransLevel.X levelPar),
   ("TransProbe", fun _ => { ext := probeExt, funs := ZapVerif.Gen.TransProbe.funs }),
   ("TransJsonSep", fun _ => ZapVerif.TransJsonSep.X),
